@@ -1055,7 +1055,7 @@ NUMOPS = ['PLUS', 'MINUS', 'MULTIPLY', 'MAXIMUM', 'MINIMUM']
 
 
 def history_script(rng, sizes, forests, steps, snap_every=12, ct=None, final_reclaim=True,
-                   slots_per_forest=4, allow_bulk=False, extra=None, snap_all=True, p_clear=0.05):
+                   slots_per_forest=4, allow_bulk=False, extra=None, snap_all=True, p_clear=0.05, p_reorder=0.0):
     """forests: list of dicts(kind, rule, sto, mm, dele).  Returns script text.
     Random mix of constructions, operations within and across forests of the
     same shape, edge copies / assignments / releases, cache maintenance."""
@@ -1068,6 +1068,8 @@ def history_script(rng, sizes, forests, steps, snap_every=12, ct=None, final_rec
         F.append(f)
     kind_of = {f: forests[i]['kind'] for i, f in enumerate(F)}
     rel_of = {f: KINDS[kind_of[f]][0] == 'R' for f in F}
+    var_sizes = list(sizes)            # sizes by variable; `sizes` below is by level of the (single) reordered forest
+    l2v = list(range(1, len(sizes) + 1))
     slots = {f: [S.new(f) for _ in range(slots_per_forest)] for f in F}
     live = {f: list(slots[f]) for f in F}
 
@@ -1087,6 +1089,18 @@ def history_script(rng, sizes, forests, steps, snap_every=12, ct=None, final_rec
             s = S.new(f)
             slots[f].append(s)
             live[f].append(s)
+            continue
+        if p_reorder and len(F) == 1 and len(sizes) > 1 and rng.random() < p_reorder:
+            # reorder the variables of the (only) forest; from here on tables are laid out by the new level sizes
+            perm = list(l2v)
+            while perm == l2v:
+                rng.shuffle(perm)
+            S.add('reorder %d %s' % (f, ' '.join(map(str, perm))))
+            l2v = perm
+            sizes = [var_sizes[v - 1] for v in l2v]
+            npts = points_of(sizes, rel)
+            S.add('obs')
+            S.add('snap %d' % f)
             continue
         if r < 0.22:
             # construction
@@ -1206,6 +1220,15 @@ def plan_c02(tier, seed, rng):
         rel = i % 2 == 1
         sizes = hist_shapes(rng, rel)
         forests = rand_forests(rng, rel, rng.choice([1, 2, 3]))
+        if i % 3 == 0:
+            # one forest whose variables are reordered now and then (variable swap; MT and EV+ sets, MT relations)
+            k = rng.choice(['mtb_s', 'mti_s', 'mtr_s', 'evp_s'] if not rel else ['mtb_r', 'mti_r'])
+            forests = [dict(kind=k, rule=rng.choice(gen.rules_of(k)), sto=rng.choice(STO), mm=rng.choice(MMS), dele=rng.choice(DEL),
+                            heur=rng.choice(HEURS))]
+            while len(sizes) < 2 or len(set(sizes)) < 2:
+                sizes = [rng.choice([2, 3, 4]) for _ in range(2 if rel else 3)]
+            scripts.append(('h%03d' % i, history_script(rng, sizes, forests, 90 if tier == 'thorough' else 60, snap_every=10, p_reorder=0.15)))
+            continue
         scripts.append(('h%03d' % i, history_script(rng, sizes, forests, 90 if tier == 'thorough' else 60, snap_every=10)))
     return dict(
         scripts=scripts, validators=[API, STORE], tags={'C02'}, lifecycle=False,
@@ -1219,6 +1242,55 @@ def plan_c02(tier, seed, rng):
     )
 
 
+def c06_width_script(rng, dele, wide16):
+    """a root node's incoming count is parked at 257, 256, 255 (and, wide16, at
+    65537, 65536, 65535) while the forest grows past 512 / 1024 handles and
+    shrinks again, so that the counter arrays are widened, resized and narrowed
+    around the value"""
+    sizes = [4, 4, 4, 4]
+    S = Script()
+    d = S.dom(sizes)
+    kind = 'mti_s'
+    f = S.forest(d, kind, rng.choice('FQ'), sto=rng.choice(STO), mm=rng.choice(MMS), dele=dele)
+    npts = points_of(sizes, False)
+    e0 = S.new(f)
+    T0 = [rng.choice([0, 1, 2, 3]) if i < 16 else 0 for i in range(npts)]
+    table_coll(S, e0, f, kind, T0, sizes)
+    big = [S.new(f) for _ in range(9)]
+
+    def grow():
+        for b in big:
+            table_coll(S, b, f, kind, rand_table(rng, kind, npts, [1, 2, 3, 5, 7, 11, 13, 17], p_default=0.3), sizes)
+
+    def shrink():
+        for b in big:
+            S.add('attach %d -1' % b)
+            S.add('attach %d %d' % (b, f))
+        S.add('clearall')
+
+    plan_ = [(300, [43, 1, 1])]
+    if wide16:
+        plan_.append((70000, [70000 + 257 - 300 - 43 - 2 - 65537 + 45, 1, 1]))
+    held = 0
+    for (k, drops) in plan_:
+        S.add('hold %d %d' % (e0, k))
+        held += k
+        for dr in drops:
+            S.add('drop %d' % dr)
+            held -= dr
+            grow()
+            S.add('snap %d' % f) if held < 1000 else None
+            shrink()
+            S.add('snap %d' % f)
+            S.add('obs %d' % e0)
+    S.add('drop %d' % held)
+    S.add('snap %d' % f)
+    S.add('attach %d -1' % e0)
+    S.add('clearall')
+    S.add('snap %d' % f)
+    return S.text()
+
+
 @plan('C06')
 def plan_c06(tier, seed, rng):
     scripts = []
@@ -1228,6 +1300,16 @@ def plan_c06(tier, seed, rng):
         sizes = hist_shapes(rng, rel)
         forests = rand_forests(rng, rel, rng.choice([1, 2, 3]), pol=dict(dele=DEL[i % 3]))
         scripts.append(('l%03d' % i, history_script(rng, sizes, forests, 120 if tier == 'thorough' else 70, snap_every=9, allow_bulk=True)))
+    # counter widths: counts parked at the 8-bit (thorough: also 16-bit) boundary while the handle arrays are resized
+    for i, dele in enumerate(DEL if tier == 'thorough' else [rng.choice(DEL)]):
+        scripts.append(('w%03d_%s' % (i, dele), c06_width_script(rng, dele, tier == 'thorough' and i == 0)))
+    # long allocation-heavy histories without cache clearing: handles are recycled while cache entries
+    # still name dead nodes (pessimistic) or unreachable ones (optimistic)
+    for i, dele in enumerate(['P', 'O'] if tier != 'thorough' else ['P', 'O', 'N', 'P']):
+        forests = [dict(kind='mti_s', rule=rng.choice('FQ'), dele=dele, mm=rng.choice(MMS), sto=rng.choice(STO)),
+                   dict(kind='mti_s', rule=rng.choice('FQ'), dele=dele)]
+        scripts.append(('z%03d_%s' % (i, dele), history_script(rng, [4, 4, 4], forests, 260 if tier != 'thorough' else 600,
+                                                               snap_every=65 if tier != 'thorough' else 150, slots_per_forest=8, p_clear=0.004)))
     return dict(
         scripts=scripts, validators=[API, STORE], tags={'C06', 'HELD'}, lifecycle=True,
         mc=[('MddStore.tla', 'StoreMC_F_O.cfg', {}), ('MddStore.tla', 'StoreMC_Q_P.cfg', {})] if tier == 'thorough' else [('MddStore.tla', 'StoreMC_small.cfg', {})],
@@ -1267,7 +1349,7 @@ def plan_c07(tier, seed, rng):
     # long histories on a larger shape: enough distinct operations to push the
     # tables through their growth / garbage-collection thresholds (512 entries
     # unchained, 4096 chained) while edges are released in between
-    stress = [(1, 0, 1024), (0, 1, 0)] if tier != 'thorough' else [(s_, r_, m_) for s_ in CT_STYLES for r_ in (0, 2) for m_ in (1024, 0)]
+    stress = [(0, 0, 1024), (3, 2, 1024), (1, 1, 0), (2, 0, 0)] if tier != 'thorough' else [(s_, r_, m_) for s_ in CT_STYLES for r_ in CT_STALE for m_ in (1024, 0)]
     sizes = [4, 4, 4] if tier != 'thorough' else [4, 4, 4, 2]
     forests = [dict(kind='mti_s', rule='F', dele='O'), dict(kind='mti_s', rule='Q', dele='P')]
     st = rng.getstate()
@@ -1387,6 +1469,11 @@ def plan_c01(tier, seed, rng):
                 sizes = hist_shapes(rng, rel)
                 scripts.append(('k%03d' % n, c01_script(rng, sizes, kind, rule, 8 if tier == 'thorough' else 5)))
                 n += 1
+    # expert interface (unpacked nodes filled in arbitrary order)
+    for kind in ['mtb_s', 'mti_s', 'evp_s']:
+        for rep in range(3 if tier == 'thorough' else 1):
+            scripts.append(('u%03d' % n, c01_unode_script(rng, kind)))
+            n += 1
     # values that do not fit 32 bits (EV+): unique-table comparison of wide edge values
     for kind in ['evp_s', 'evp_r']:
         for rule in gen.rules_of(kind):
@@ -1468,6 +1555,60 @@ def c01_wide_script(rng, sizes, kind, rule):
                 S.add('attach %d -1' % e)
                 S.add('attach %d %d' % (e, f))
             S.add('clearall')
+    return S.text()
+
+
+def c01_unode_script(rng, kind):
+    """expert interface: the same node assembled as a sparse unpacked node with
+    its entries in every / shuffled insertion order, as a full unpacked node,
+    and as a minterm collection - all must be the identical edge"""
+    import itertools
+    sizes = [3, rng.choice([4, 6, 9]), rng.choice([3, 5])]
+    S = Script()
+    d = S.dom(sizes)
+    f = S.forest(d, kind, 'F', sto=rng.choice(STO))
+    pal = COPY_PAL.get(kind) or [1]
+    K = len(sizes)
+    # children: functions of the bottom variable only
+    nchild = 4
+    kids = [S.new(f) for _ in range(nchild)]
+    ktab = []
+    for c in kids:
+        if KINDS[kind][1] == 'B':
+            low = [rng.choice([0, 1]) for _ in range(sizes[0])]
+            if not any(low):
+                low[0] = 1
+        else:
+            low = [rng.choice([v for v in pal if v != INF] + [gen.default_of(kind)]) for _ in range(sizes[0])]
+        full = [low[r % sizes[0]] for r in range(points_of(sizes, False))]
+        ktab.append(full)
+        table_coll(S, c, f, kind, full, sizes)
+    level = 2
+    res = [S.new(f) for _ in range(8)]
+    ref = S.new(f)
+    for trial in range(4):
+        n = rng.randint(2, min(4, sizes[level - 1]))
+        idxs = rng.sample(range(sizes[level - 1]), n)
+        chosen = [rng.randrange(nchild) for _ in range(n)]
+        # reference: the same function as a collection
+        np_ = points_of(sizes, False)
+        T = []
+        for r in range(np_):
+            dig = (r // sizes[0]) % sizes[1]
+            if dig in idxs:
+                T.append(ktab[chosen[idxs.index(dig)]][r])
+            else:
+                T.append(gen.default_of(kind))
+        table_coll(S, ref, f, kind, T, sizes)
+        orders = list(itertools.permutations(range(n)))
+        rng.shuffle(orders)
+        for oi, order in enumerate(orders[:6]):
+            parts = ' '.join('%d %d' % (idxs[o], kids[chosen[o]]) for o in order)
+            S.add('unode %d %d %d S %d %s' % (res[oi], f, level, n, parts))
+        parts = ' '.join('%d %d' % (idxs[o], kids[chosen[o]]) for o in range(n))
+        S.add('unode %d %d %d F %d %s' % (res[6], f, level, n, parts))
+        S.add('obs')
+    S.add('snap %d' % f)
     return S.text()
 
 
@@ -1849,6 +1990,7 @@ def c17_script(rng, steps):
     fors = {}           # f -> (d, kind) (alive)
     slots = {}          # slot -> forest index or None (detached); deleted slots are removed
     set_kinds = ['mtb_s', 'mti_s', 'evp_s']
+    pairs = []          # (operand forest, result edge) of cross-forest COPY operations performed
 
     def alive_edges(f=None):
         return [s for s, g in slots.items() if g is not None and (f is None or g == f)]
@@ -1901,6 +2043,8 @@ def c17_script(rng, steps):
                 S.add('bin %s %d %d %d' % (op, c, a, b))
             else:
                 S.add('un COPY %d %d' % (b, a))
+                if slots[b] != fa:
+                    pairs.append((fa, b))       # an operation from forest fa into the forest of edge b now exists
         elif r < 0.73 and slots:
             s = rng.choice(list(slots))
             t = S.slot()
@@ -1924,10 +2068,29 @@ def c17_script(rng, steps):
                 slots[s] = f
         elif r < 0.88 and fors:
             f = rng.choice(list(fors))
+            # prefer a forest that is the operand forest of a cross-forest operation whose result forest survives
+            cand = [sf for (sf, ds) in pairs if sf in fors and ds in slots and slots[ds] is not None and slots[ds] != sf]
+            if cand and rng.random() < 0.7:
+                f = rng.choice(cand)
+            d_old, k_old = fors[f]
             S.add('dfor %d' % f)
             del fors[f]
             detach_forest(f)
             S.add('obs')
+            # a new forest of the same kind takes its place (possibly at the same address) and the same
+            # kind of cross-forest operation is requested again
+            targets = [ds for (sf, ds) in pairs if sf == f and ds in slots and slots[ds] is not None]
+            if targets and d_old in doms:
+                g = S.forest(d_old, k_old, rng.choice('FQ'), dele=rng.choice(DEL))
+                fors[g] = (d_old, k_old)
+                x = S.new(g)
+                slots[x] = g
+                table_coll(S, x, g, k_old, rand_table(rng, k_old, points_of(doms[d_old], False), ARITH_PAL.get(k_old), p_default=0.5), doms[d_old])
+                for ds in targets[:2]:
+                    S.add('un COPY %d %d' % (ds, x))
+                    pairs.append((g, ds))
+                S.add('obs')
+            pairs[:] = [(sf, ds) for (sf, ds) in pairs if sf != f]
         elif r < 0.905 and doms:
             d = rng.choice(list(doms))
             S.add('ddom %d' % d)
